@@ -118,6 +118,10 @@ structure State where
   register writes through the transaction map; the four places where the two packages differ test this flag), see
   `Model/Mvp62.lean`.  `Model.Mvp61.init` sets `false`. -/
   v62 : Bool := false
+  /-- configuration: `true` (together with `v62`) = the machine is `proc/mvp6-3` (MVP-6.2 plus register renaming: the
+  rename tables instead of the transaction map, `shouldUseRenaming` in the control unit, the write units' filter in the
+  cycle of a flush), see `Model/Mvp63.lean` -/
+  v63 : Bool := false
   deriving Inhabited
 
 /-! ## the forward slots and the channels -/
@@ -201,6 +205,10 @@ def fwdMatch (p r : Runner) : Option Reg :=
   (p.instr.writeRegisters.filterMap fun w =>
     r.instr.readRegisters.find? (fun rd => rd != Gen.Reg.Zero && rd == w)).head?
 
+/-- the message of the distinguished panic "the Go result depends on map iteration order" (the driver prints such a
+run as `maporder`, the check gives no verdict on it) -/
+def mapOrderMsg : String := "map order: two runners pushed in the previous cycle match"
+
 /-- `shouldUseForwarding(runner, hazards, hazardTypes)`: `none` = no; the Go loop ranges over a map — the model
 takes the runners in push order and fails when the choice would depend on the order -/
 def shouldUseForwarding (prev : List Runner) (r : Runner) (hz : List (HazardType × Reg)) : M (Option (Runner × Reg)) :=
@@ -211,7 +219,7 @@ def shouldUseForwarding (prev : List Runner) (r : Runner) (hz : List (HazardType
     | [] => pure none
     | [m] => pure (some m)
     | m :: _ => if ms.all (fun x => x.1.uid == m.1.uid) then pure (some m)
-                else throw (.panic "map order: two runners pushed in the previous cycle match")
+                else throw (.panic mapOrderMsg)
   | _ => pure none
 
 /-- `previousRunner.Forwarder = ch` on the runner object the execute bus points to -/
@@ -234,6 +242,7 @@ structure CuSt where
   nextUid : Nat
   forwarded : Nat
   v62 : Bool := false
+  v63 : Bool := false
 
 /-- `pushRunner(ctx, cycle, runner)` followed by `pushedRunnersInCurrentCycle[runner] = true` -/
 def pushRunner (st : CuSt) (cycle : Int) (r : Runner) : Option CuSt :=
@@ -266,7 +275,14 @@ def handleRunner (st : CuSt) (cycle : Int) (r : Runner) : M ((Bool × Bool) × R
         match pushRunner st cycle r with
         | none => pure ((false, true), r, st)
         | some st' => pure ((true, true), r, { st' with forwarded := st'.forwarded + 1 })
-      | none => pure ((false, true), r, st)
+      | none =>
+        -- MVP-6.3: `if u.shouldUseRenaming(hazards, hazardTypes) { … return true, false }` — at most one hazard, and
+        -- it is not read-after-write: the runner is pushed although an older writer / reader of its register is in flight
+        if st.v63 && decide (hz.length ≤ 1) && !hz.any (fun h => h.1 == HazardType.raw) then
+          match pushRunner st cycle r with
+          | none => pure ((false, true), r, st)
+          | some st' => pure ((true, false), r, st')
+        else pure ((false, true), r, st)
 
 def notePushed (st : CuSt) (r : Runner) : CuSt :=
   let t := r.instr.instructionType
@@ -303,7 +319,7 @@ def controlCycle (s : State) : M State :=
   else do
     let st : CuSt := { ctx := s.ctx, inBus := s.controlBus, outBus := s.executeBus, pendings := s.cuPendings,
                        prev := s.cuPrev, pendCond := s.cuPendCond, nextChan := s.nextChan, nextUid := s.nextUid,
-                       forwarded := s.forwarded, v62 := s.v62 }
+                       forwarded := s.forwarded, v62 := s.v62, v63 := s.v63 }
     let (st, stopped) ← cuPendingLoop s.cycles s.cuPendings.iterator st
     let st ← if stopped then pure st else cuBusLoop s.cycles (st.inBus.pendingRead.toNat + 1) st
     pure { s with ctx := st.ctx, controlBus := st.inBus, executeBus := st.outBus, cuPendings := st.pendings,
@@ -336,8 +352,9 @@ def buAssert (s : State) (r : Runner) : State :=
 MVP-6.2: `notifyConditionalBranchTaken(SequenceID)` = `ctx.Rollback(SequenceID)` when the branch jumps
 (`PcChange && NextPc != Pc+4`), else `notifyConditionalBranchNotTaken()` = `ctx.Commit()`.  (Both range over the map
 `ctx.Transaction`; the keys are distinct registers and each is written once: the order is irrelevant.) -/
-def condCtx (v62 : Bool) (ctx : Model.Context) (r : Runner) (e : Gen.Execution) : Model.Context :=
-  if v62 then (if e.PcChange && e.NextPc != r.pc + 4#32 then ctx.rollback r.seq else ctx.commit) else ctx
+def condCtx (v62 v63 : Bool) (ctx : Model.Context) (r : Runner) (e : Gen.Execution) : Model.Context :=
+  if v63 then (if e.PcChange && e.NextPc != r.pc + 4#32 then ctx.ratRollback r.seq else ctx.ratCommit)
+  else if v62 then (if e.PcChange && e.NextPc != r.pc + 4#32 then ctx.rollback r.seq else ctx.commit) else ctx
 
 /-- `executeUnit.run(r)` of unit `i` (after `Reset()`); `cyc` is `r.cycle` -/
 def euRun (app : App) (s : State) (i : Nat) (eu : ExecUnit) (r : Runner) (cyc : Int) : M (State × EuOut) :=
@@ -370,7 +387,7 @@ def euRun (app : App) (s : State) (i : Nat) (eu : ExecUnit) (r : Runner) (cyc : 
               { s with du := { s.du with pendingBranchResolution := false } }
             else s
           -- `notifyConditionalBranch()` / MVP-6.2: `notifyConditionalBranchTaken` / `…NotTaken` (`condCtx`)
-          let s := if t.IsConditionalBranch then { s with cuPendCond := false, ctx := condCtx s.v62 s.ctx r e } else s
+          let s := if t.IsConditionalBranch then { s with cuPendCond := false, ctx := condCtx s.v62 s.v63 s.ctx r e } else s
           if e.PcChange then
             let (fl, bu) := buShouldFlush s.bu e.NextPc
             pure ({ s with bu := bu }, if fl then .flush r.seq e.NextPc else .none)
@@ -493,7 +510,9 @@ def wuCycle62 (s : State) (j : Nat) (before : Word) : M State :=
       | some ec =>
         if before != BitVec.ofInt 32 (-1) && before.slt ec.seq then pure s
         else if ec.execution.RegisterChange then
-          let ctx := s.ctx.transactionWriteRegister ec.execution.Register ec.execution.RegisterValue ec.seq
+          -- MVP-6.3: `ctx.TransactionRATWrite(execution, SequenceID)`
+          let ctx := if s.v63 then s.ctx.transactionRATWrite ec.execution.Register ec.execution.RegisterValue ec.seq
+                     else s.ctx.transactionWriteRegister ec.execution.Register ec.execution.RegisterValue ec.seq
           pure { s with ctx := deletePendingRegisters ctx ec.readRegisters ec.writeRegisters }
         else if ec.execution.MemoryChange then
           pure (setWu s j { co := .wait Gen.Latency.MemoryAccess, memoryWrite := some ec })
@@ -505,8 +524,11 @@ def wuCycle (s : State) (j : Nat) (before : Word) : M State :=
     let t ← Model.Mvp60.wuCycle (to60 s) j before
     pure { s with ctx := t.ctx, writeBus := t.writeBus, wus := t.wus }
 
-def wusCycle (s : State) : M State :=
-  (List.range s.wus.length).foldlM (fun s j => wuCycle s j (BitVec.ofInt 32 (-1))) s
+/-- `for _, wu := range m.writeUnits { wu.Cycle(wuReq{before}) }` -/
+def wusCycleB (s : State) (before : Word) : M State :=
+  (List.range s.wus.length).foldlM (fun s j => wuCycle s j before) s
+
+def wusCycle (s : State) : M State := wusCycleB s (BitVec.ofInt 32 (-1))
 
 def areWriteUnitsEmpty (s : State) : Bool := s.wus.all WriteUnit.isEmpty
 
@@ -536,7 +558,8 @@ def isEmpty (s : State) : Bool :=
 def finish (s : State) (h : Halt) : M (State × Event) := do
   let (mem, extra) ← Model.Mmu.flush cfg s.mmu s.ctx.Memory
   -- MVP-6.2: `m.ctx.Commit()` after the cache flush
-  let ctx := if s.v62 then s.ctx.commit else s.ctx
+  -- MVP-6.3: `m.ctx.RATCommit(); m.ctx.RATFlush()`
+  let ctx := if s.v63 then s.ctx.ratCommit.ratFlush else if s.v62 then s.ctx.commit else s.ctx
   pure ({ s with ctx := { ctx with Memory := mem }, cycles := s.cycles + extra, mode := .normal }, .done h)
 
 structure EuAcc where
@@ -639,7 +662,8 @@ def cycleM (app : App) (s : State) : M (State × Event) :=
     let (s, acc) ← eusCycle app s.eus.length 0 s {}
     if acc.err then pure (s, .done .err)
     else do
-      let s ← wusCycle s
+      -- MVP-6.3: `if flush { wu.Cycle(wuReq{sequenceID}) } else { wu.Cycle(wuReq{-1}) }`
+      let s ← wusCycleB s (if s.v63 && acc.flush then acc.seq else BitVec.ofInt 32 (-1))
       if acc.ret then goRetA s
       else if acc.flush then
         -- `for _, eu := range m.executeUnits { eu.sequenceID = sequenceID }; fromCycle := cycle`
